@@ -35,18 +35,18 @@ PROPS = {
                 not_covered='generated messages; repeated/packed/map/message/group/string/bytes codecs are not yet under a harness'),
     'C06': dict(verus=['pbgen'], kani=K_PB + ['bnd_pb_merge_repeated_packed'], assumptions=A_COMMON[:1] + ['format! on error paths is stubbed in the Kani harnesses'],
                 not_covered='generated messages: only the two match tables that select the codec per scalar type (lower_ty, ty_module) are covered, as verbatim fragments; repeated/map/oneof positions of the generator and map entry layout are not covered'),
-    'C07': dict(verus=['skip', 'binary', 'binary_le', 'compact_skip'], kani=[], assumptions=A_COMMON,
-                not_covered='decided: the recursive default skipper, against a recursive grammar of binary-protocol values (bskip_val: structs, lists, sets, maps nested to the depth limit): Ok(n) <=> the input starts with a well-formed value of that type occupying n bytes, which are exactly the bytes consumed; depth 0 => Err; termination by depth; and the refinement obligation that TBinaryProtocol<&mut Bytes> (both byte orders) implements the reader contract the skipper is verified against. Not decided: the async skipper, the iterative unchecked skipper; the compact reader is known finding G4'),
-    'C09': dict(verus=THRIFT_UNITS + ['skip', 'async_binary', 'async_binary_le', 'async_compact'], kani=['a3_varint_decode_total', 'rwext_read_i16', 'rwext_read_i32', 'rwext_read_i64', 'rwext_read_u64'], assumptions=A_COMMON,
-                not_covered=NOT_GEN + '; sync read_string/read_to_string (vec! allocation) not yet under contract; async skipper not under contract'),
+    'C07': dict(verus=['skip', 'binary', 'binary_le', 'compact_skip', 'async_skip', 'async_binary', 'async_binary_le'], kani=[], assumptions=A_COMMON,
+                not_covered='decided: the recursive default skipper, against a recursive grammar of binary-protocol values (bskip_val: structs, lists, sets, maps nested to the depth limit): Ok(n) <=> the input starts with a well-formed value of that type occupying n bytes, which are exactly the bytes consumed; depth 0 => Err; termination by depth; and the refinement obligation that TBinaryProtocol<&mut Bytes> (both byte orders) implements the reader contract the skipper is verified against. The async default skipper (TAsyncInputProtocol::skip_till_depth) is verified against the same grammar (Ok <=> a well-formed value was consumed, exactly its bytes) with the refinement obligation for TAsyncBinaryProtocol<R> (both byte orders); that proof found G5 (fixed). Not decided: the iterative unchecked skipper (unsafe pointer reads); the async skipper over the async compact reader (it skips by calling read_*, so it does not share G4) is not verified against a compact value grammar'),
+    'C09': dict(verus=THRIFT_UNITS + ['skip', 'async_skip', 'async_binary', 'async_binary_le', 'async_compact'], kani=['a3_varint_decode_total', 'rwext_read_i16', 'rwext_read_i32', 'rwext_read_i64', 'rwext_read_u64'], assumptions=A_COMMON,
+                not_covered=NOT_GEN + '; unchecked (unsafe) readers are outside the checked-reader scope of C09'),
     'C10': dict(verus=['prost'], kani=['pb_varint_decode_total', 'pb_varint_roundtrip', 'pb_varint_chain'], assumptions=A_COMMON[:1] + ['decode_varint_slice (unsafe, unrolled) enters Verus through its documented safety contract; Kani pb_varint_decode_total proves it on the real code', 'derive(Clone) of DecodeContext replaced by its field-wise expansion; core::cmp::min redirected to a usize wrapper'],
                 not_covered='decode_varint, decode_varint_slow, decode_key, check_wire_type, WireType::try_from, DecodeContext::{enter_recursion,limit_reached} are verified total (no panic, bounded consumption); skip_field (`break <value>` unsupported by Verus), merge_loop (FnMut closure), bytes/string/message/group/map merge and generated merge_field are not decided'),
     'C11': dict(verus=[], kani=K_C11_W + K_C11_R, assumptions=A_COMMON[:1] + ['the documented preconditions of the unchecked codec (window of the reported size; complete well-formed input) are the harness assumptions'],
                 not_covered='LinkedBytes variant and zero-copy insertion, unchecked read_field_begin/list/set/map_begin, read_bytes/read_faststr/get_bytes and the iterative skipper are not under a harness'),
-    'C12': dict(verus=['async_binary', 'async_binary_le', 'async_compact'], kani=[], assumptions=A_COMMON + [
-                    'A7 tokio AsyncReadExt::{read_u8,read_i8,read_i16[_le],read_i32[_le],read_i64[_le],read_f64[_le],read_exact} deliver the next bytes of the stream in order regardless of chunking or Pending wake-ups, or fail when the stream ends first (vf/units/_asyncrd.vu); the delivery-schedule quantifier of C12 is discharged by this assumption, not by pilota-side proof',
+    'C12': dict(verus=['async_binary', 'async_binary_le', 'async_compact', 'async_skip'], kani=[], assumptions=A_COMMON + [
+                    'A7 tokio AsyncReadExt::{read_u8,read_i8,read_i16[_le],read_i32[_le],read_i64[_le],read_f64[_le],read_exact,take(n).read_to_end} deliver the next bytes of the stream in order regardless of chunking or Pending wake-ups, or fail when the stream ends first (vf/units/_asyncrd.vu); the delivery-schedule quantifier of C12 is discharged by this assumption, not by pilota-side proof; for take(n).read_to_end it is also assumed that tokio reserves memory in proportion to the bytes delivered',
                     'D8: async fn -> fn, .await dropped: each awaited read is an atomic call'],
-                not_covered=NOT_GEN + '; the async skipper (TAsyncInputProtocol::skip_till_depth) is not under contract yet'),
+                not_covered=NOT_GEN + '; the async skipper is verified against the same value grammar (bskip_val) as the in-memory skipper for the binary readers; the async skipper over the compact reader is not verified against a compact value grammar'),
     'C18': dict(verus=[], kani=[h for h in K_PB if h not in ('pb_varint_roundtrip', 'pb_varint_decode_total')] + ['bnd_pb_merge_repeated_packed'], assumptions=A_COMMON[:1],
                 not_covered='only "singular scalars take the last occurrence" (merge into an arbitrary pre-existing value) is decided; repeated/map/oneof/embedded/unknown-field semantics are not'),
 }
